@@ -31,9 +31,9 @@ def classify_known(rec, gmodel, known_ids):
         for i, r in zip(ids, res):
             if r == "OK":
                 for part in i.split("+"):
-                    if part not in known_ids:
+                    if part.split("~")[0] not in known_ids:
                         return None
-                return i
+                return "+".join(sorted(set(part.split("~")[0] for part in i.split("+"))))
         return None
     msg = ""
     if isinstance(e, dict):
